@@ -6,25 +6,7 @@
 (* encryption paths (secret key, zero, public key, seed-compressed).                          *)
 (* Each behaviour is the two-step program  enc ; dec  (plus a second decryption at another    *)
 (* plaintext precision).                                                                      *)
-EXTENDS Integers, Sequences, FiniteSets, TLC, Json, IOUtils, SequencesExt
-
-CONSTANTS DeepNs, Ns, Bs, MaxS, Ranks, Dists, Classes, NoiseIdx, Paths
-\* (10*sigma, 10*bound): smallest legal noise, wider bounds, and the library default (3.2, 19.2)
-NoiseTable == << <<10, 10>>, <<10, 20>>, <<10, 60>>, <<32, 192>> >>
-Noises == {NoiseTable[k] : k \in NoiseIdx}
-
-Step(op, r, a, sz, koff, rk, pb, ps, pc) ==
-  [op |-> op, r |-> r, a |-> a, b |-> 0, k |-> 0, sz |-> sz, koff |-> koff, rk |-> rk, pb |-> pb, ps |-> ps, pc |-> pc]
-
-Prog(n, b, rank, dist, noise, path, sz, koff, pb, ps, pc, pb2, ps2) ==
-  [n |-> n, b |-> b, rank |-> rank, dist |-> dist, hw |-> n \div 2, sigma10 |-> noise[1], bound10 |-> noise[2], nregs |-> 2,
-   prog |-> << Step(path, 0, 0, sz, koff, rank, pb, ps, pc),
-               Step("dec", 0, 0, sz, koff, rank, pb, ps, pc),
-               Step("dec", 0, 0, sz, koff, rank, pb2, ps2, pc) >>]
-
-\* plaintext layouts relative to the ciphertext (b, sz): same radix with fewer / equal / more limbs, and another radix
-PtLayouts(b, sz) == { <<b, ps>> : ps \in {1, sz, sz + 1} \cap (1..(MaxS + 1)) }
-OtherRadix(b, sz) == { <<pb, ps>> : pb \in (Bs \ {b}), ps \in {sz} }
+EXTENDS C01Grid, TLC, Json, IOUtils, SequencesExt
 
 Progs == UNION { UNION { { Prog(n, b, rank, dist, noise, path, sz, koff, pl[1], pl[2], pc, dl[1], dl[2]) :
                              n \in Ns, rank \in Ranks, dist \in Dists, noise \in Noises, path \in Paths, koff \in {0, 1, b - 1},
